@@ -415,7 +415,8 @@ SPEC = {
              '1 or 4 inputs): own normalisation model decides None vs found, returned circuit must compute the requested rows '
              'in order. Don\'t-care lookups with 1-6 free cells: agrees with every defined cell and is no larger (default measure, or an explicit '
              'exclusion_list with an own gate count) than the lookup of every completion (own enumeration). Non-trivial: lookup needing negation / re-ordering / '
-             'duplication; entries with a non-zero table.'),
+             'duplication; entries with a non-zero table.'
+             " Added during the build: prior lookups on the same database object (the same cells in rows of another length, an extra all-False row, another measure), equal rows with free cells, measures under which whole completions are free, and part 'instances' (private additions must not reach a database opened later; a database of one's own returns what was stored, also for repeated outputs)."),
     'assumptions': ['the set of stored labels is read from the opened database dictionary (no public iterator exists)'],
     'subs': [Sub('lookup', lookup_cases, check_lookup_case, {'quick': 1600, 'thorough': 150000}),
              Sub('dont_care_lookup', dc_cases, check_dc, {'quick': 320, 'thorough': 30000})],
